@@ -39,7 +39,12 @@ var seqKey = []byte("seq")
 var intervals = []int{1, 2, 3, 7}
 
 // alphabet of history symbols
-var alphabet = []string{"N", "R", "S1", "S2", "S3", "S7"}
+// N = Next, R = Release, S<i> = restart: a fresh object with interval i takes over,
+// B = hand the key back to the most recently parked object (an earlier object that
+// was cleanly Released or never used), or to a fresh object if there is none.
+// Switching objects (S, B) parks the current object if it holds no un-released lease
+// and abandons it for good otherwise, so at most one object ever holds a lease.
+var alphabet = []string{"N", "R", "S1", "S2", "S3", "S7", "B"}
 
 // crashAt is one injected fault at store call #Site: a crash (panic before / after
 // applying the call, the object is abandoned) or, with Fail, a store error (sentinel
@@ -68,6 +73,7 @@ type seqResult struct {
 	failsFired, crashesFired int
 	failThenCrash            bool // a crash fired after a store error had been returned earlier in the run
 	failThenRestart          bool // a Restart followed a store error
+	reuseAfterRelease        int  // numbers issued by an object that was parked after a Release and picked up again
 	issued                   int
 	events                   int // crash / restart / release between first and last issued number
 	trace                    string
@@ -120,9 +126,23 @@ func runSeq(cs seqCase) seqResult {
 	objNexts := 0       // successful Next calls on this object
 	objTouched := false // the object attempted Next/Release since creation or its last clean Release
 	objFailed := false  // a store call of this object returned an injected error
+	objPicked := false  // the object was parked after a clean Release and is in use again
+	last := int64(-1)   // last issued number
+	slack := int64(0)   // numbers that may legitimately be skipped before the next issued one
+	type parkedObj struct {
+		seq             *kvstore.Sequence
+		interval, nexts int
+	}
+	var parked []parkedObj
+	// leaveCurrent parks the current object (no un-released lease) or abandons it.
+	leaveCurrent := func() {
+		if objTouched {
+			slack += int64(interval)
+		} else {
+			parked = append(parked, parkedObj{obj, interval, objNexts})
+		}
+	}
 
-	last := int64(-1)      // last issued number
-	slack := int64(0)      // numbers that may legitimately be skipped before the next issued one
 	var sinceLast []string // event classes since the last issued number
 	regressBy := ""        // class of the first step after which the stored mark was behind last+1
 	var tr strings.Builder
@@ -133,7 +153,7 @@ func runSeq(cs seqCase) seqResult {
 		}
 		sinceLast = append(sinceLast, why)
 		obj, _ = kvstore.NewSequence(st, seqKey, uint64(interval))
-		objNexts, objTouched, objFailed = 0, false, false
+		objNexts, objTouched, objFailed, objPicked = 0, false, false, false
 		res.crashesFired++
 		if res.failsFired > 0 {
 			res.failThenCrash = true
@@ -205,6 +225,9 @@ func runSeq(cs seqCase) seqResult {
 				if cause == "" {
 					cause = "none-observed"
 				}
+				if objPicked {
+					cause += "(object-in-use-again-after-its-Release)"
+				}
 				return fail("reuse/mark-behind-after:"+cause,
 					fmt.Sprintf("step %d: Next returned %d although %d was already issued (events since then: %v; stored mark fell behind after: %s); trace: %s", i, v, last, sinceLast, cause, tr.String()))
 			}
@@ -231,6 +254,9 @@ func runSeq(cs seqCase) seqResult {
 			last, slack, sinceLast = int64(v), 0, nil
 			objNexts++
 			res.issued++
+			if objPicked {
+				res.reuseAfterRelease++
+			}
 			if objFailed {
 				checkMark("Next(after-store-error-on-same-object)")
 			} else {
@@ -274,17 +300,33 @@ func runSeq(cs seqCase) seqResult {
 			iv, _ := strconv.Atoi(op[1:])
 			fmt.Fprintf(&tr, "S%d ", iv)
 			// the old object is abandoned between two operations (= crash at an operation boundary)
-			old := interval
+			// if it holds a lease, parked otherwise
+			leaveCurrent()
 			interval = iv
-			if objTouched {
-				slack += int64(old)
-			}
 			sinceLast = append(sinceLast, "restart")
 			if res.failsFired > 0 {
 				res.failThenRestart = true
 			}
 			obj, _ = kvstore.NewSequence(st, seqKey, uint64(interval))
-			objNexts, objTouched, objFailed = 0, false, false
+			objNexts, objTouched, objFailed, objPicked = 0, false, false, false
+		case op == "B":
+			n := len(parked)
+			leaveCurrent()
+			sinceLast = append(sinceLast, "restart")
+			if res.failsFired > 0 {
+				res.failThenRestart = true
+			}
+			if n > 0 {
+				pk := parked[n-1]
+				parked = append(parked[:n-1], parked[n:]...)
+				obj, interval, objNexts = pk.seq, pk.interval, pk.nexts
+				objTouched, objFailed, objPicked = false, false, pk.nexts > 0
+				fmt.Fprintf(&tr, "B(back,i=%d) ", interval)
+			} else {
+				obj, _ = kvstore.NewSequence(st, seqKey, uint64(interval))
+				objNexts, objTouched, objFailed, objPicked = 0, false, false, false
+				fmt.Fprintf(&tr, "B(new,i=%d) ", interval)
+			}
 		}
 	}
 	res.trace = tr.String()
@@ -303,6 +345,7 @@ func ba(after bool) string {
 type stats struct {
 	runs, crashRuns, crashesFired, issued, nontrivialRuns, doubleCrashRuns int
 	failsFired, failRuns, failThenCrashRuns, failThenRestartRuns           int
+	reuseAfterRelease, reuseRuns                                           int
 	kinds                                                                  map[string]int
 	viols                                                                  []struct {
 		v  violation
@@ -333,6 +376,10 @@ func explore(c *vf.Ctx, st *stats, cs seqCase, maxCrashes int) {
 		st.kinds[k]++
 	}
 	st.failsFired += r.failsFired
+	st.reuseAfterRelease += r.reuseAfterRelease
+	if r.reuseAfterRelease > 0 {
+		st.reuseRuns++
+	}
 	if r.failsFired > 0 {
 		st.failRuns++
 		if r.failThenCrash {
@@ -404,6 +451,8 @@ func mergeStats(c *vf.Ctx, st *stats) {
 	c.Count("runs_store_error_then_crash", st.failThenCrashRuns)
 	c.Count("runs_store_error_then_restart", st.failThenRestartRuns)
 	c.Count("numbers_issued", st.issued)
+	c.Count("numbers_issued_by_object_reused_after_release", st.reuseAfterRelease)
+	c.Count("runs_object_reused_after_release", st.reuseRuns)
 	c.Count("nontrivial_runs", st.nontrivialRuns)
 	for k, v := range st.kinds {
 		c.Count("crash@"+k, v)
@@ -504,7 +553,7 @@ func longCase(c *vf.Ctx, idx int) (seqCase, *rand.Rand) {
 		case r < 7:
 			ops[i] = "R"
 		default:
-			ops[i] = alphabet[2+rng.Intn(4)]
+			ops[i] = alphabet[2+rng.Intn(5)] // a restart or a hand-back
 		}
 	}
 	return seqCase{Interval0: intervals[rng.Intn(4)], Ops: ops}, rng
@@ -596,7 +645,7 @@ func seqChild(c *vf.Ctx) {
 
 func sequentialPart(c *vf.Ctx) {
 	exhLen, dblLen, triLen := seqBounds(c)
-	c.Extra("exhaustive_bound", fmt.Sprintf("all histories over {Next, Release, Restart(1|2|3|7)} of length <= %d for every initial interval in {1,2,3,7}, each fault-free and with a crash before / a crash after / a store error at every store call; every pair of faults for length <= %d, every triple for length <= %d", exhLen, dblLen, triLen))
+	c.Extra("exhaustive_bound", fmt.Sprintf("all histories over {Next, Release, Restart(1|2|3|7), Back-to-parked-object} of length <= %d for every initial interval in {1,2,3,7}, each fault-free and with a crash before / a crash after / a store error at every store call; every pair of faults for length <= %d, every triple for length <= %d", exhLen, dblLen, triLen))
 	vf.Parallel(seqChildren, runtime.NumCPU(), func(k int) {
 		resumeJ, resumeI := -1, -1
 		for deaths := 0; ; {
@@ -671,32 +720,72 @@ func concurrentChild(c *vf.Ctx) {
 		in.Jitter = func(site int64) {
 			x := uint64(site)*0x9E3779B97F4A7C15 ^ jit
 			x ^= x >> 29
-			if x&3 == 0 {
+			// Gosched-only jitter at every store call: widens the window around the store round trip
+			switch x & 7 {
+			case 0, 1:
+				runtime.Gosched()
+			case 2:
+				runtime.Gosched()
+				runtime.Gosched()
 				runtime.Gosched()
 			}
 		}
 		st := faultkv.Wrap(inner, in)
-		gens := 1 + rng.Intn(3)
+		gens := 1 + rng.Intn(4)
+		var seq *kvstore.Sequence
+		interval := 0
 		prevMax := int64(-1)
 		allowed := int64(0)
 		seen := map[uint64]struct{}{}
 		desc := fmt.Sprintf("round %d goroutines %d", r, g)
 		for gen := 0; gen < gens; gen++ {
-			interval := []int{1, 1, 2, 2, 3, 3, 7}[rng.Intn(7)] // small: a renewal every 1-3 calls
-			seq, _ := kvstore.NewSequence(st, seqKey, uint64(interval))
+			if seq == nil { // a new owner; otherwise the object of the previous generation (cleanly Released) is used again
+				interval = []int{1, 1, 2, 2, 3, 3, 7, 7, 16}[rng.Intn(9)] // mostly small: a renewal every 1-3 calls
+				seq, _ = kvstore.NewSequence(st, seqKey, uint64(interval))
+			} else {
+				c.Count("generations_on_reused_object", 1)
+			}
+			cur := seq
+			// in half of the generations a releaser calls Release on the same object while the Next callers run
+			racing := rng.Intn(2) == 0
 			evs := make([][]nextEv, g)
 			var wg sync.WaitGroup
 			var errCount atomic.Int64
+			var running atomic.Int64
+			running.Store(int64(g))
+			type relEv struct{ call, ret int64 }
+			var rels []relEv
+			var relWg sync.WaitGroup
 			start := make(chan struct{})
+			if racing {
+				relWg.Add(1)
+				go func() {
+					defer relWg.Done()
+					<-start
+					for k := 0; k < 5000 && running.Load() > 0; k++ {
+						ct := tick.Add(1)
+						err := cur.Release()
+						rt := tick.Add(1)
+						if err != nil {
+							errCount.Add(1)
+						}
+						rels = append(rels, relEv{ct, rt})
+						for y := 0; y < 1+k%4; y++ {
+							runtime.Gosched()
+						}
+					}
+				}()
+			}
 			for gi := 0; gi < g; gi++ {
 				wg.Add(1)
 				go func(gi int) {
 					defer wg.Done()
+					defer running.Add(-1)
 					buf := make([]nextEv, 0, calls)
 					<-start
 					for k := 0; k < calls; k++ {
 						ct := tick.Add(1)
-						v, err := seq.Next()
+						v, err := cur.Next()
 						rt := tick.Add(1)
 						if err != nil {
 							errCount.Add(1)
@@ -709,8 +798,14 @@ func concurrentChild(c *vf.Ctx) {
 			}
 			close(start)
 			wg.Wait()
+			relWg.Wait()
+			if racing {
+				desc = fmt.Sprintf("round %d goroutines %d (Release racing with Next on the same object)", r, g)
+			} else {
+				desc = fmt.Sprintf("round %d goroutines %d", r, g)
+			}
 			if errCount.Load() > 0 {
-				c.Violation("concurrent/Next-unexpected-error", desc+": Next returned an error on a healthy store", map[string]any{"round": r, "seed": c.Seed})
+				c.Violation("concurrent/Next-unexpected-error", desc+": Next or Release returned an error on a healthy store", map[string]any{"round": r, "seed": c.Seed})
 			}
 			var all []nextEv
 			for gi := range evs {
@@ -753,6 +848,27 @@ func concurrentChild(c *vf.Ctx) {
 				}
 			}
 			c.Count("overlapping_calls", overl)
+			if racing {
+				// Next calls overlapping a Release: call(Next) < ret(Release) and ret(Next) > call(Release)
+				calls := make([]int64, len(all))
+				rets := make([]int64, len(all))
+				for i := range all {
+					calls[i], rets[i] = all[i].call, byRet[i].ret
+				}
+				ov, relOv := 0, 0
+				for _, re := range rels {
+					a := sort.Search(len(calls), func(i int) bool { return calls[i] >= re.ret })
+					b := sort.Search(len(rets), func(i int) bool { return rets[i] > re.call })
+					if n := a - b; n > 0 {
+						ov += n
+						relOv++
+					}
+				}
+				c.Count("racing_release_calls", len(rels))
+				c.Count("release_calls_overlapping_a_next", relOv)
+				c.Count("release_vs_next_overlaps", ov)
+				c.Count("generations_with_racing_release", 1)
+			}
 			// contiguity within the generation and waste between generations
 			vals := make([]int64, len(all))
 			for i, e := range all {
@@ -765,7 +881,9 @@ func concurrentChild(c *vf.Ctx) {
 				} else if vals[0]-prevMax-1 > allowed {
 					c.Violation("concurrent/waste-between-generations", fmt.Sprintf("%s generation %d starts at %d, previous generation reached %d, allowed waste %d", desc, gen, vals[0], prevMax, allowed), map[string]any{"round": r, "seed": c.Seed})
 				}
-				for i := 1; i < len(vals); i++ {
+				// (not demanded while Release races with Next: the statement does not say what a Release
+				// concurrent with Next may waste; reuse and order stay strict)
+				for i := 1; i < len(vals) && !racing; i++ {
 					if vals[i] > vals[i-1]+1 {
 						c.Violation("concurrent/gap-without-crash", fmt.Sprintf("%s: numbers %d..%d skipped without any crash", desc, vals[i-1]+1, vals[i]-1), map[string]any{"round": r, "seed": c.Seed, "goroutines": g, "interval": interval})
 						break
@@ -774,12 +892,16 @@ func concurrentChild(c *vf.Ctx) {
 				prevMax = vals[len(vals)-1]
 			}
 			if rng.Intn(2) == 0 {
-				if err := seq.Release(); err != nil {
+				if err := cur.Release(); err != nil {
 					c.Violation("concurrent/Release-unexpected-error", desc+": Release failed", nil)
 				}
 				allowed = 0
+				if rng.Intn(2) == 0 {
+					seq = nil // restart: a fresh object takes over
+				}
 			} else {
 				allowed = int64(interval) // abandoned with an open lease
+				seq = nil
 			}
 			c.Count("generations", 1)
 		}
@@ -836,7 +958,7 @@ func run(c *vf.Ctx) {
 		replay(c)
 		return
 	}
-	c.SetRule("sequential: every history over {Next, Release, Restart(interval in 1,2,3,7)} up to the exhaustive length, for each initial interval, is executed without a crash and with an injected fault at every store call it makes: a crash before / after applying it (panic, object abandoned, fresh NewSequence on the same store) or a store error (sentinel returned, not applied, the same object keeps being used) (pairs of crash points for the shorter lengths; longer histories sampled from the seed with 1-3 crashes); one evaluation = one execution of a (history, crash plan); distinct_nontrivial = distinct crash-free histories in which at least two numbers were issued with a crash/restart/release between the first and the last of them. concurrent: one evaluation = one Next call made while 2-16 goroutines share the Sequence")
+	c.SetRule("sequential: every history over {Next, Release, Restart(interval in 1,2,3,7), Back (the key is handed back to an earlier object that was cleanly Released; objects keep their own interval; only one object ever holds a lease)} up to the exhaustive length, for each initial interval, is executed without a crash and with an injected fault at every store call it makes: a crash before / after applying it (panic, object abandoned, fresh NewSequence on the same store) or a store error (sentinel returned, not applied, the same object keeps being used) (pairs of crash points for the shorter lengths; longer histories sampled from the seed with 1-3 crashes); one evaluation = one execution of a (history, crash plan); distinct_nontrivial = distinct crash-free histories in which at least two numbers were issued with a crash/restart/release between the first and the last of them. concurrent: one evaluation = one Next call made while 2-16 goroutines share the Sequence")
 	sequentialPart(c)
 	flushViols(c)
 	c.SetExhaustive(true)
@@ -870,6 +992,9 @@ func run(c *vf.Ctx) {
 	c.Require("runs_store_error_then_restart", 1000)
 	c.Require("concurrent_next_calls", 10000)
 	c.Require("overlapping_calls", 1000)
+	c.Require("release_vs_next_overlaps", 1000)
+	c.Require("generations_on_reused_object", 10)
+	c.Require("runs_object_reused_after_release", 500)
 	c.Require("race_children", 1)
 	c.Assume("a crash of the owning process is modelled by a panic out of the store call followed by abandoning the Sequence object; mapdb applies Set atomically")
 	c.Assume("errors.Is / panics of faultkv are the only injected faults; mapdb itself never fails")
